@@ -647,3 +647,22 @@ Proof.
   unfold coherent, runw, runw_gen. destruct (coh_run ops world0 0 acc0 [] (world0_decl [])) as [X [Y [A [B C]]]].
   cbn [acc0 a_rets a_outs rev app] in A, B. rewrite A, B. exact C.
 Qed.
+
+(* the hypotheses are satisfiable: an expectation that ignores other parameters returns 4 bytes through "o0"; the actual call passes
+   the unexpected output parameter "o1" first, then "o0", then an unexpected input parameter: it consumes the expectation, gets
+   its return value, "o0" carries the bytes and "o1" is untouched *)
+Definition buf_ee : list N := [238; 238; 238; 238; 238; 238; 238; 238].
+Definition example_ign_outs : list (N * op) :=
+  [ (0, OExpect 1 0 [] [(0, [17; 34; 51; 68])] None (Some (PInt TInt 1%Z)) true);
+    (0, OCall 0 [IOut 1 buf_ee; IOut 0 buf_ee; IIn 3 (PBool true)] true); (0, OCheck) ].
+Example example_ign_outs_delivered :
+  o_fail (runw example_ign_outs) = None /\ o_rets (runw example_ign_outs) = [Some (PInt TInt 1%Z)] /\
+  o_outs (runw example_ign_outs) = [buf_ee; [17; 34; 51; 68; 238; 238; 238; 238]] /\ coherent example_ign_outs (runw example_ign_outs) = true.
+Proof. vm_compute. auto. Qed.
+(* the clause is not vacuous: had "o0" been left untouched, it would be false *)
+Example example_ign_outs_judged :
+  coherent example_ign_outs {| o_fail := None; o_rets := [Some (PInt TInt 1%Z)]; o_outs := [buf_ee; buf_ee]; o_left := []; o_post := [] |} = false.
+Proof. vm_compute. reflexivity. Qed.
+Example example_call_delivers : exists m' r, actual_call true (expect mock0 1 0 [] [(0, [17; 34; 51; 68])] None (Some (PInt TInt 1%Z)) true) 0
+                                              [IOut 1 buf_ee; IOut 0 buf_ee; IIn 3 (PBool true)] true = inl (m', r).
+Proof. eexists _, _. vm_compute. reflexivity. Qed.
